@@ -68,7 +68,7 @@ func ValidateSchemaDocument(sd *SchemaDocument) (*Schema, error) {
 				}
 				schema.AddImplements(t, def)
 			}
-		case InputObject, Object:
+		case Object:
 			for _, intf := range def.Interfaces {
 				schema.AddPossibleType(intf, def)
 				if intfDef := schema.Types[intf]; intfDef != nil {
